@@ -2177,6 +2177,9 @@ class ResetIndex(Elemwise):
                 # Avoid Projection since we are already a Series
                 subs = Projection(self, name)
                 predicate = parent.predicate.substitute(subs, self.frame)
+            if predicate is not None:
+                # The remaining terms of the predicate still refer to ourselves
+                predicate = predicate.substitute(self, self.frame)
             return self._filter_simplification(parent, predicate)
 
         if isinstance(parent, Projection):
